@@ -276,4 +276,50 @@ Proof.
   - rewrite (contribs_unreached _ _ _ _ Er). cbn [Sweep.vsum fold_right]. rewrite (vadd_0_r A Aok). reflexivity.
 Qed.
 
+
+(* graph and weights after a history *)
+Fixpoint evolve_all (g : arena) (w : weights A) (h : list event) : arena * weights A :=
+  match h with
+  | [] => (g, w)
+  | e :: h' => evolve_all (evolve_g A g e) (evolve_w A g w e) h'
+  end.
+
+Lemma leaf_spec_app : forall h1 h2 g w v a,
+  leaf_spec A g w (h1 ++ h2) v a =
+  leaf_spec A (fst (evolve_all g w h1)) (snd (evolve_all g w h1)) h2 v (leaf_spec A g w h1 v a).
+Proof. induction h1 as [|e h1 IH]; intros; cbn [app leaf_spec evolve_all]; [reflexivity|apply IH]. Qed.
+
+(* Σ over the backward calls since the last reset *)
+Theorem history_sum_since_reset h1 e h2 s s' v :
+  valid_state s -> builds_ok A (length (h_g A s)) (h1 ++ e :: h2) ->
+  run A s (h1 ++ e :: h2) = Some s' ->
+  forall g1 w1, evolve_all (h_g A s) (h_w A s) h1 = (g1, w1) ->
+  resets A g1 e v = true -> no_reset A (evolve_g A g1 e) h2 v = true -> leafish (h_g A s') v ->
+  h_b A s' v = Some (vsum A (contribs A (evolve_g A g1 e) (evolve_w A g1 w1 e) h2 v)).
+Proof.
+  intros Hv Hb Hrun g1 w1 E1 Hres Hno Hleaf.
+  destruct (history_leaf_spec _ s s' Hv Hb Hrun) as [_ Hspec].
+  rewrite (Hspec v Hleaf). rewrite leaf_spec_app, E1. cbn [fst snd leaf_spec].
+  rewrite (leaf_spec_since_reset h2 _ _ v _ Hno).
+  assert (Ha : acc_step A g1 w1 e v (leaf_spec A (h_g A s) (h_w A s) h1 v (h_b A s v)) = Some (vzero A)).
+  { destruct e; cbn [resets] in Hres; cbn [acc_step]; try discriminate; rewrite Hres; reflexivity. }
+  rewrite Ha. destruct (reached A (evolve_g A g1 e) h2 v) eqn:Er.
+  - cbn [oget]. rewrite (vadd_0_l A Aok). reflexivity.
+  - rewrite (contribs_unreached _ _ _ _ Er). reflexivity.
+Qed.
+
+(* a leaf that was never reset: what it held at the start (possibly nothing) plus every contribution; still
+   absent (None) iff it was absent and no backward call reached it *)
+Theorem history_sum_never_reset h s s' v :
+  valid_state s -> builds_ok A (length (h_g A s)) h -> run A s h = Some s' ->
+  no_reset A (h_g A s) h v = true -> leafish (h_g A s') v ->
+  h_b A s' v = if reached A (h_g A s) h v
+               then Some (vadd A (oget A (h_b A s v)) (vsum A (contribs A (h_g A s) (h_w A s) h v)))
+               else h_b A s v.
+Proof.
+  intros Hv Hb Hrun Hno Hleaf.
+  destruct (history_leaf_spec _ s s' Hv Hb Hrun) as [_ Hspec].
+  rewrite (Hspec v Hleaf). apply leaf_spec_since_reset. exact Hno.
+Qed.
+
 End Hist.
